@@ -490,6 +490,16 @@ def replay_job(replay, workroot, variants):
              "variant": r.get("variant", "default"), "args": r.get("args", []), "tags": r.get("tags", [])}]
 
 
+def replay_floor(rep, floors, tier):
+    """A replayed single case that no longer fails must end as `held` (exit 0),
+    not as `too little observed`: the per-tier floors are about exploration runs."""
+    e, d = floors.get(tier, (1, 2))
+    rep.extra["replay_mode"] = True
+    rep.extra["replayed_cases"] = rep.evaluations
+    rep.evaluations = max(rep.evaluations, e)
+    rep.distinct_extra = max(0, d - len(rep.distinct))
+
+
 def job_replay(job, extra=None):
     r = {"name": job["name"], "world": job["world"], "variant": job["variant"], "args": job["args"], "tags": job["tags"],
          "wit_text": read_wit(job["wit"]) if job["source"] != "corpus" or os.path.isfile(job["wit"]) else read_wit(job["wit"]),
